@@ -445,6 +445,11 @@ def oracle(q, r):
                 tag = (c - 1000) // 10
                 if not any(w[0] == "readerr" and w[1] in (2, 3) and w[2] == tag for w in why):
                     bad.append(("generation %d closed with the error of another read (tag %d)" % (g, tag), None))
+            elif c == 6:
+                # the read loop's own "end of stream inside a frame": only for an end of file met
+                # while part of a frame was pending
+                if not any(w[3] != "boundary" for w in eofs):
+                    bad.append(("generation %d closed with 'end of stream inside a frame' but no end of file arrived inside a frame" % g, None))
             elif c == 9:
                 bad.append(("generation %d closed with an unidentified cause" % g, None))
             elif c == 5:
